@@ -145,6 +145,21 @@ def run_case(case):
                 elif m == 0 and not (d.get((a, b)) == 0 and d.get((b, a)) == 0):
                     oracle.append(f"tie between {a} and {b} not recorded as 0 both ways")
             oracle += check_tiers(cs, w, tiers)
+            # the optional ballot_length argument only decides which ballots are completed; the head-to-head
+            # margins ("listed beats unlisted, unlisted split evenly") do not depend on it
+            cast = {c for b in jp["ballots"] for gp in b["r"] for c in gp}
+            for k in sorted({1, max(1, len(cs) - 1), len(cs) + 1}):
+                gk = call_impl(PairwiseComparisonGraph, prof, ballot_length=k)
+                if isinstance(gk, Err):
+                    oracle.append(f"PairwiseComparisonGraph(ballot_length={k}) raised {gk}")
+                    break
+                dk = gk.pairwise_dict
+                bad = [(a, b) for a, b in itertools.permutations(sorted(cast), 2)
+                       if (d.get((a, b)) is not None or d.get((b, a)) is not None) and d.get((a, b)) != dk.get((a, b))]
+                if bad:
+                    oracle.append(f"margin of {bad[0]} changes with ballot_length={k}")
+                    break
+            tags.append("ballot_length-variants")
             cw = [c for c in cs if all(w[(c, o)] > w[(o, c)] for o in cs if o != c)]
             hcw = call_impl(g.has_condorcet_winner)
             if hcw != bool(cw):
